@@ -192,29 +192,37 @@ func (j *JSONRPCServer) ExecuteActions(
 	storage := make(map[string][]byte)
 	ts := tstate.New(1)
 
+	// A transaction executes every one of its actions under the union of the
+	// state keys declared by all of them: each action gets that same scope.
+	stateKeysWithPermissions := make(state.Keys)
 	for actionIndex, action := range actions {
-		// Get expected state keys
-		stateKeysWithPermissions := action.StateKeys(args.Actor, chain.CreateActionID(ids.Empty, uint8(actionIndex)))
-
-		// flatten the map to a slice of keys
-		storageKeysToRead := make([][]byte, 0, len(stateKeysWithPermissions))
-		for key := range stateKeysWithPermissions {
-			storageKeysToRead = append(storageKeysToRead, []byte(key))
-		}
-
-		values, errs := j.vm.ReadState(ctx, storageKeysToRead)
-		for _, err := range errs {
-			if err != nil && !errors.Is(err, database.ErrNotFound) {
-				return fmt.Errorf("failed to read state: %w", err)
+		for key, permission := range action.StateKeys(args.Actor, chain.CreateActionID(ids.Empty, uint8(actionIndex))) {
+			if !stateKeysWithPermissions.Add(key, permission) {
+				return chain.ErrInvalidKeyValue
 			}
 		}
-		for i, value := range values {
-			if value == nil {
-				continue
-			}
-			storage[string(storageKeysToRead[i])] = value
-		}
+	}
 
+	// flatten the map to a slice of keys
+	storageKeysToRead := make([][]byte, 0, len(stateKeysWithPermissions))
+	for key := range stateKeysWithPermissions {
+		storageKeysToRead = append(storageKeysToRead, []byte(key))
+	}
+
+	values, errs := j.vm.ReadState(ctx, storageKeysToRead)
+	for _, err := range errs {
+		if err != nil && !errors.Is(err, database.ErrNotFound) {
+			return fmt.Errorf("failed to read state: %w", err)
+		}
+	}
+	for i, value := range values {
+		if value == nil {
+			continue
+		}
+		storage[string(storageKeysToRead[i])] = value
+	}
+
+	for actionIndex, action := range actions {
 		tsv := ts.NewView(
 			stateKeysWithPermissions,
 			state.ImmutableStorage(storage),
